@@ -152,7 +152,7 @@ func (s *Schema) AddType(name string, sc jschema.Schema) (err error) {
 
 		// The type lives in its own file: errors found inside it carry positions
 		// relative to that file and must be rendered against it.
-		s.inner.AddNamedType(name, typ.inner, typ.file, 0)
+		return s.addNamedType(name, typ)
 	case *regex.Schema:
 		pattern, err := typ.Pattern()
 		if err != nil {
@@ -173,14 +173,56 @@ func (s *Schema) AddType(name string, sc jschema.Schema) (err error) {
 			return err
 		}
 
-		s.inner.AddNamedType(name, typSc.inner, typSc.file, 0)
+		return s.addNamedType(name, typSc)
 
 	default:
 		return fmt.Errorf("schema should be JSight or Regex schema, but %T given", sc)
 	}
+}
 
+// addNamedType puts the loaded typ into the table of types. A name that is not
+// a type name, or one that is in the table already, is refused with an error of
+// the file of the type being added, like everything else AddType refuses.
+func (s *Schema) addNamedType(name string, typ *Schema) (err error) {
+	defer func() {
+		r := recover()
+		if e, ok := r.(errors.Errorf); ok {
+			err = typeNameError{Errorf: e, file: typ.file}
+			return
+		}
+		if r != nil {
+			panic(r)
+		}
+	}()
+	s.inner.AddNamedType(name, typ.inner, typ.file, 0)
 	return nil
 }
+
+// typeNameError is the refusal of the name a type is added with. Its text is
+// the bare message (which is what users of the library have seen for long); as
+// the other errors of a schema it has a code, a message and a place: the
+// beginning of the file of the type.
+type typeNameError struct {
+	file *fs.File
+	errors.Errorf
+}
+
+var (
+	_ errors.Error = typeNameError{}
+	_ errors.Err   = typeNameError{}
+)
+
+func (e typeNameError) Filename() string {
+	if e.file == nil {
+		return ""
+	}
+	return e.file.Name()
+}
+
+func (typeNameError) Position() uint            { return 0 }
+func (e typeNameError) Message() string         { return e.Errorf.Error() }
+func (e typeNameError) ErrCode() int            { return int(e.Code()) }
+func (typeNameError) IncorrectUserType() string { return "" }
 
 func jsonQuote(s string) string {
 	b, err := stdJSON.Marshal(s)
